@@ -371,6 +371,7 @@ fn emit_live(run: &mut Run, cfg: &Cfg, o: &LiveObs) {
 
 pub fn run(args: &Args) {
     let rt = tokio::runtime::Builder::new_multi_thread().worker_threads(8).enable_all().build().unwrap();
+    start_lag_monitor(rt.handle());
     let mut run = Run::new("c10", &args.out);
     if let Some(case) = &args.replay {
         let mut it = case.split_whitespace();
@@ -577,6 +578,7 @@ pub fn run(args: &Args) {
         v
     };
     run.notes.insert("lattice_valid_points".into(), serde_json::json!(all.len()));
+    run.notes.insert("scheduling_lag_note".into(), serde_json::json!("every live time bound (gathering 5 s, Connected 12 s, channel / message / RTP 10 s) is stretched by the scheduling lag measured continuously on the harness runtime (how late a 100 ms sleep fires; factor 1.0 on an idle host, capped at 5.0); messages quote the nominal bound"));
     run.notes.insert("lattice_points_run".into(), serde_json::json!(points.len()));
     let par = 8usize;
     let t0 = Instant::now();
